@@ -12,7 +12,7 @@ import (
 // sees no synchronisation, so it still judges the code under test by the
 // synchronisation that code contains.
 
-const maxG = 32
+const maxG = 256
 
 const (
 	gUnused = iota
@@ -26,6 +26,7 @@ const (
 	wRLock
 	wWLock
 	wOnce
+	wEpoch // waiting for "something changed" (channel and WaitGroup operations): enabled when chanEpoch > waitEpoch
 )
 
 type lockModel struct {
@@ -38,12 +39,13 @@ type onceModel struct {
 }
 
 type gstate struct {
-	rfd, wfd uintptr
-	status   int32
-	waitKind int32
-	waitLock *lockModel
-	waitOnce *onceModel
-	steps    uint64
+	rfd, wfd  uintptr
+	status    int32
+	waitKind  int32
+	waitLock  *lockModel
+	waitOnce  *onceModel
+	waitEpoch uint64
+	steps     uint64
 }
 
 // Deadlock is the panic value raised in the goroutine that detects that no
@@ -153,6 +155,8 @@ func enabled(g int) bool {
 		return s.waitLock.writer == 0 && s.waitLock.readers == 0
 	case wOnce:
 		return s.waitOnce.state != 1
+	case wEpoch:
+		return chanEpoch > s.waitEpoch
 	}
 	return true
 }
@@ -283,6 +287,7 @@ func waitFor(kind int32, l *lockModel, o *onceModel, site int32) {
 func finish() {
 	me := curG
 	gs[me].status = gDone
+	chanEpoch++
 	left := false
 	for g := 0; g < nG; g++ {
 		if gs[g].status != gDone && gs[g].status != gUnused {
@@ -350,6 +355,102 @@ func schedStart() {
 //go:norace
 func enter(g int) { gateWait(g) }
 
+// ---- goroutines started by the code under test (`go f()` is rewritten to simrt.Go) ----
+
+var (
+	runWG       *sync.WaitGroup
+	extraPanics []interface{}
+	extraMu     sync.Mutex
+	chanEpoch   uint64 // advanced by every successful channel/WaitGroup operation, spawn and exit
+	nSpawned    uint64
+)
+
+// Spawned returns how many goroutines the code under test has started (cumulative).
+//
+//go:norace
+func Spawned() uint64 { return nSpawned }
+
+//go:norace
+func addG() int {
+	if nG >= maxG {
+		panic("simrt: too many goroutines")
+	}
+	var p [2]int
+	if err := syscall.Pipe(p[:]); err != nil {
+		panic("simrt: pipe: " + err.Error())
+	}
+	g := nG
+	gs[g] = gstate{rfd: uintptr(p[0]), wfd: uintptr(p[1]), status: gReady}
+	nG++
+	chanEpoch++
+	nSpawned++
+	return g
+}
+
+// Go is what a `go` statement of the code under test becomes. Outside a simulated schedule
+// it is a plain go statement.
+func Go(fn func()) {
+	if !schedOn {
+		go fn()
+		return
+	}
+	g := addG()
+	runWG.Add(1)
+	go func() { // the real go statement gives the race detector the spawn edge
+		defer runWG.Done()
+		enter(g)
+		func() {
+			defer func() {
+				if r := recover(); r != nil {
+					if _, ok := r.(Deadlock); ok {
+						panic(r)
+					}
+					// an unrecovered panic in a goroutine kills a real process
+					extraMu.Lock()
+					extraPanics = append(extraPanics, r)
+					extraMu.Unlock()
+				}
+			}()
+			fn()
+		}()
+		finish()
+	}()
+	Yield(-12)
+}
+
+// ExtraPanics returns (and forgets) the panics of goroutines started by the code under test.
+func ExtraPanics() []interface{} {
+	extraMu.Lock()
+	defer extraMu.Unlock()
+	out := extraPanics
+	extraPanics = nil
+	return out
+}
+
+// waitChange parks the running goroutine until another goroutine has made progress on a
+// channel, a WaitGroup, a spawn or an exit; the caller then re-tries its operation.
+//
+//go:norace
+func waitChange(site int32) {
+	me := curG
+	s := &gs[me]
+	s.waitKind, s.waitEpoch = wEpoch, chanEpoch
+	s.status = gReady
+	next := pick(site)
+	if next < 0 {
+		deadlock()
+	}
+	if next != me {
+		switchTo(next, site)
+		gateWait(me)
+	}
+	s.waitKind = wNone
+	s.status = gRunning
+}
+
+//go:norace
+func progress() { chanEpoch++ }
+
 // RunGoroutines runs the functions as simulated goroutines under the seeded
 // scheduler and returns, per goroutine, the value it panicked with (nil if it
 // returned normally). It returns when all have finished.
@@ -358,6 +459,7 @@ func RunGoroutines(fns []func()) []interface{} {
 	panics := make([]interface{}, n)
 	schedSetup(n)
 	var wg sync.WaitGroup
+	runWG = &wg
 	for i := 0; i < n; i++ {
 		wg.Add(1)
 		go func(i int) {
